@@ -36,6 +36,50 @@ fn staircase(l: usize, kinds: &[Kind]) -> Ontology {
 
 /// (id, count, pvalue, fold) per returned record
 fn run_enrichment(ont: &Ontology, kind: Kind, n_bg: usize, s: usize, n: usize) -> Vec<(u32, u64, f64, f64)> {
+    // The collections are handed over in different shapes, chosen deterministically per call:
+    // exact-size iterators, filtering adapters over a larger collection (whose size_hint upper bound
+    // exceeds the real size), Vec, and HpoSet.
+    let shape = (n_bg + 2 * s + 3 * n) % 4;
+    let all: Vec<hpo::HpoTerm> = ont.iter().collect();
+    let in_bg = |t: &hpo::HpoTerm| {
+        let id = hpo::annotations::AnnotationId::as_u32(&t.id());
+        id > LEAF0 && id <= LEAF0 + n_bg as u32
+    };
+    let in_sample = |t: &hpo::HpoTerm| {
+        let id = hpo::annotations::AnnotationId::as_u32(&t.id());
+        id >= LEAF0 + s as u32 && id < LEAF0 + (s + n) as u32
+    };
+    let bg_vec: Vec<hpo::HpoTerm> = (1..=n_bg as u32).map(|i| ont.hpo(LEAF0 + i).unwrap()).collect();
+    let sample_vec: Vec<hpo::HpoTerm> = (s as u32..(s + n) as u32).map(|i| ont.hpo(LEAF0 + i).unwrap()).collect();
+    macro_rules! call {
+        ($f:ident) => {
+            match shape {
+                0 => $f(bg_vec.iter().copied(), sample_vec.iter().copied()),
+                1 => $f(all.iter().copied().filter(|t| in_bg(t)), all.iter().copied().filter(|t| in_sample(t))),
+                2 => $f(bg_vec.clone(), all.iter().copied().filter(|t| in_sample(t))),
+                _ => {
+                    let mut g = hpo::term::HpoGroup::new();
+                    for t in &sample_vec {
+                        g.insert(t.id());
+                    }
+                    let set = hpo::HpoSet::new(ont, g);
+                    $f(all.iter().copied().filter(|t| in_bg(t)), &set)
+                }
+            }
+            .iter()
+            .map(|e| (e.id().as_u32(), e.count(), e.pvalue(), e.enrichment()))
+            .collect()
+        };
+    }
+    match kind {
+        Kind::Gene => call!(gene_enrichment),
+        Kind::Omim => call!(omim_disease_enrichment),
+        Kind::Orpha => call!(orpha_disease_enrichment),
+    }
+}
+
+#[allow(dead_code)]
+fn run_enrichment_plain(ont: &Ontology, kind: Kind, n_bg: usize, s: usize, n: usize) -> Vec<(u32, u64, f64, f64)> {
     let bg = (1..=n_bg as u32).map(|i| ont.hpo(LEAF0 + i).unwrap());
     let sample = (s as u32..(s + n) as u32).map(|i| ont.hpo(LEAF0 + i).unwrap());
     match kind {
@@ -190,6 +234,7 @@ pub fn run(ctx: &mut Ctx) {
     ctx.assumptions = vec![
         "p-values compared with rtol 1e-9 against exact big-integer binomial sums (N <= 200) and with rtol 1e-6 against a log-domain reference for the large-population slices; range, monotonicity, counts strict; fold change rtol 1e-12".into(),
         "sample terms are drawn from the background (property statement)".into(),
+        "background and sample are passed as exact-size iterators, filtering adapters over a larger collection, Vec and &HpoSet in rotation (the functions accept any IntoIterator)".into(),
     ];
     // ---- small populations, all kinds
     let nmax = if thorough { 64 } else { 30 };
